@@ -682,6 +682,16 @@ class ExchangeRate:
             raise ValueError("Term amount must be >= 0.000001.")
         # adjust unit_multiple and term_amount so that
         # unit_multiple is a power to 10 and term_amount.magnitude >= -1
+        mult = Decimal(10) ** unit_multiple.magnitude
+        if mult != unit_multiple:
+            # the magnitude of the term amount per `mult` units counts
+            term_amount = term_amount * mult / unit_multiple
+            unit_multiple = mult
+            if isinstance(term_amount, Decimal):
+                magnitude_term_amount = term_amount.magnitude
+            else:
+                magnitude_term_amount = \
+                    int(math.floor(math.log10(term_amount)))
         mult = Decimal(10) ** (unit_multiple.magnitude
                                - min(0, magnitude_term_amount + 1))
         assert isinstance(mult, Decimal)
